@@ -53,8 +53,24 @@ void vf_run_case(vf::Ctx& ctx, long idx)
     const LD lminB = (LD) eb.eigenvalues()[0], kB = (LD) eb.eigenvalues()[n - 1] / lminB;
     Sp As = A.sparseView(), Bs = B.sparseView();
     MatXd X0 = vg::rand_gauss(r, n, k);
+    // start blocks: gaussian (cold start), or a warm start - the wanted eigenvectors themselves, as another solver would hand them over: in descending order,
+    // as a rotated basis of their span, or slightly perturbed - so that convergence is detected at the start-up step or after very few iterations
+    const int startkind = (int) r.pick(std::vector<long>{0, 0, 0, 1, 2, 3, 3});
+    static const char* SKN[] = {"gaussian", "exact-eigenvectors-descending", "rotated-basis-of-the-wanted-subspace", "perturbed-eigenvectors-descending"};
+    int maxit_eff = maxit;
+    if (startkind != 0)
+    {
+        Eigen::GeneralizedSelfAdjointEigenSolver<MatXd> refv(A, B);
+        MatXd W = refv.eigenvectors().leftCols(k);
+        MatXd Wd(n, k);
+        for (int j = 0; j < k; j++) Wd.col(j) = W.col(k - 1 - j);
+        if (startkind == 1) X0 = Wd;
+        else if (startkind == 2) X0 = W * vg::rand_orth(r, k);
+        else X0 = Wd + std::pow(10.0, -(double) r.range(4, 9)) * vg::rand_gauss(r, n, k);
+        maxit_eff = (int) r.pick(std::vector<long>{0, 1, 2, 5, 40});
+    }
     Sp X0s = X0.sparseView();
-    auto info = [&]() { return vf::J().kv("n", n).kv("block_size", k).kv("with_B", withB).kv("with_preconditioner", withP).kv("tol_div_n", (double) tol).kv("maxit", maxit).kv("cond_B", (double) kB).kv("indefinite_A", indefinite); };
+    auto info = [&]() { return vf::J().kv("n", n).kv("block_size", k).kv("with_B", withB).kv("with_preconditioner", withP).kv("tol_div_n", (double) tol).kv("maxit", maxit_eff).kv("start", SKN[startkind]).kv("cond_B", (double) kB).kv("indefinite_A", indefinite); };
     Spectra::LOBPCGSolver<T> solver(As, X0s);
     if (withB) solver.setB(Bs);
     if (withP)
@@ -64,16 +80,18 @@ void vf_run_case(vf::Ctx& ctx, long idx)
         solver.setPreconditioner(P);
     }
     std::string outcome = "ok";
-    try { solver.compute(maxit, tol); }
+    try { solver.compute(maxit_eff, tol); }
     catch (const std::invalid_argument&) { outcome = "invalid_argument"; }
     catch (const std::exception& e) { outcome = std::string("exception:") + typeid(e).name(); }
     ctx.count("evals");
     ctx.count("block_size/" + std::string(k == 1 ? "1" : (k >= 10 ? ">=10" : "2..9")));
     ctx.count(std::string(withB ? "pencil" : "standard") + (withP ? "+preconditioner" : ""));
     ctx.count(indefinite ? "spectrum/indefinite" : "spectrum/positive");
+    ctx.count(std::string("start/") + SKN[startkind]);
     if (outcome != "ok") { ctx.count("outcome/" + outcome); ctx.nontriv("exc/" + std::to_string(idx)); if (ctx.want_sample) ctx.set_sample(info().kv("outcome", outcome).str()); return; }   // the exception is "no success reported"
     const bool success = solver.info() == Eigen::Success;
     ctx.count(success ? "outcome/Success" : "outcome/no-success-reported");
+    if (success && startkind != 0) ctx.count("success_from_warm_start/maxit=" + std::to_string(maxit_eff));
     auto bad = [&](const char* what, LD obs, LD allow) { ctx.violation(std::string("LOBPCGSolver/") + what, info().kv("observed", obs).kv("allowed", allow).kv("info", (long) solver.info()).str()); };
     if (!success) { if (ctx.want_sample) ctx.set_sample(info().kv("outcome", "no success").kv("info", (long) solver.info()).str()); return; }
     const LD u = unit<T>(), tolL2 = (LD) tol * n;
